@@ -154,7 +154,14 @@ func okc(b bool) string {
 	return "!"
 }
 
-func (w *world) fill(conf interface{}) error {
+// fillWith: a fillConf that writes the given user settings (those of ONE creation)
+func (w *world) fillWith(u [3]*int) func(interface{}) error {
+	return func(conf interface{}) error { return w.fillU(u, conf) }
+}
+
+func (w *world) fill(conf interface{}) error { return w.fillU(w.u, conf) }
+
+func (w *world) fillU(u [3]*int, conf interface{}) error {
 	w.mu.Lock()
 	defer w.mu.Unlock()
 	i := w.fills
@@ -174,14 +181,14 @@ func (w *world) fill(conf interface{}) error {
 		return &tErr{"fill", i}
 	}
 	if c != nil {
-		if w.u[0] != nil {
-			c.A = *w.u[0]
+		if u[0] != nil {
+			c.A = *u[0]
 		}
-		if w.u[1] != nil {
-			c.B = *w.u[1]
+		if u[1] != nil {
+			c.B = *u[1]
 		}
-		if w.u[2] != nil {
-			c.C = *w.u[2]
+		if u[2] != nil {
+			c.C = *u[2]
 		}
 	}
 	return nil
@@ -430,29 +437,76 @@ func c18Run(input string) string {
 	if !registered {
 		return "regpanic"
 	}
-	var fillOpt []func(interface{}) error
-	if kv["fill"] == "1" {
-		fillOpt = append(fillOpt, w.fill)
-	}
-	newPlugin := func() (interface{}, error) { return reg.New(ifaceT, "x", fillOpt...) }
-	newFactory := func(t reflect.Type) (interface{}, error) { return reg.NewFactory(t, "x", fillOpt...) }
-	if kv["via"] == "hook" {
+	hook := kv["via"] == "hook"
+	if hook {
 		hookMu.Lock()
 		defer hookMu.Unlock()
 		old := plugin.DefaultRegistry()
 		plugin.SetDefaultRegistry(reg)
 		defer plugin.SetDefaultRegistry(old)
-		data := func() interface{} { // parseConf consumes the map
-			m := map[string]interface{}{"type": "x"}
-			w.userKeys(m)
-			return m
-		}
-		newPlugin = func() (interface{}, error) { return pluginconfig.Hook(reflect.TypeOf(data()), ifaceT, data()) }
-		newFactory = func(t reflect.Type) (interface{}, error) {
-			return pluginconfig.FactoryHook(reflect.TypeOf(data()), t, data())
-		}
 	}
-	switch kv["form"] {
+	// creators for one creation with the user's settings as they are NOW in w.u
+	creators := func(fill bool) (func() (interface{}, error), func(reflect.Type) (interface{}, error)) {
+		if hook {
+			u := w.u
+			data := func() interface{} { // parseConf consumes the map
+				m := map[string]interface{}{"type": "x"}
+				w.userKeysOf(u, m)
+				return m
+			}
+			return func() (interface{}, error) { return pluginconfig.Hook(reflect.TypeOf(data()), ifaceT, data()) },
+				func(t reflect.Type) (interface{}, error) {
+					return pluginconfig.FactoryHook(reflect.TypeOf(data()), t, data())
+				}
+		}
+		var fillOpt []func(interface{}) error
+		if fill {
+			fillOpt = append(fillOpt, w.fillWith(w.u))
+		}
+		return func() (interface{}, error) { return reg.New(ifaceT, "x", fillOpt...) },
+			func(t reflect.Type) (interface{}, error) { return reg.NewFactory(t, "x", fillOpt...) }
+	}
+	viewsOf := func(ps []*comp) string {
+		var views []string
+		for _, p := range ps {
+			if p.cfg != nil {
+				views = append(views, fmt.Sprintf("%d:%d", p.serial, p.cfg.Mark))
+			}
+		}
+		return strings.Join(views, ",")
+	}
+	if kv["hist"] == "1" {
+		// several creations on the one registration, each with its own user settings
+		var phSteps, phViews []string
+		for _, ph := range strings.Split(kv["ph"], "|") {
+			f := strings.Split(ph, ":")
+			if len(f) != 4 {
+				panic("phase " + ph)
+			}
+			w.u = [3]*int{}
+			for i, t := range strings.Split(f[2], "/") {
+				if t != "_" {
+					v, _ := strconv.Atoi(t)
+					w.u[i] = &v
+				}
+			}
+			pk, _ := strconv.Atoi(f[3])
+			s0, p0 := len(w.steps), len(w.products)
+			newPlugin, newFactory := creators(f[1] == "1")
+			w.drive(f[0], pk, newPlugin, newFactory)
+			phSteps = append(phSteps, strings.Join(w.steps[s0:], ";"))
+			phViews = append(phViews, viewsOf(w.products[p0:]))
+		}
+		return "hist steps=" + strings.Join(phSteps, "#") + " pv=" + strings.Join(phViews, "#") + " views=" + viewsOf(w.products)
+	}
+	newPlugin, newFactory := creators(kv["fill"] == "1")
+	w.drive(kv["form"], k, newPlugin, newFactory)
+	return "steps=" + strings.Join(w.steps, ";") + " views=" + viewsOf(w.products)
+}
+
+// drive: one creation of the requested form followed by k calls
+func (w *world) drive(form string, k int, newPlugin func() (interface{}, error), newFactory func(reflect.Type) (interface{}, error)) {
+	switch form {
 	case "c":
 		for i := 0; i < k; i++ {
 			res := w.guarded(func() string { return w.resOf(newPlugin()) })
@@ -485,20 +539,15 @@ func c18Run(input string) string {
 	default:
 		panic("form")
 	}
-	var views []string
-	for _, p := range w.products {
-		if p.cfg != nil {
-			views = append(views, fmt.Sprintf("%d:%d", p.serial, p.cfg.Mark))
-		}
-	}
-	return "steps=" + strings.Join(w.steps, ";") + " views=" + strings.Join(views, ",")
 }
 
 // userKeys puts the user's settings into a plugin config map; bad: a value the decoder must refuse
-func (w *world) userKeys(m map[string]interface{}) {
+func (w *world) userKeys(m map[string]interface{}) { w.userKeysOf(w.u, m) }
+
+func (w *world) userKeysOf(u [3]*int, m map[string]interface{}) {
 	for i, key := range []string{"a", "b", "c"} {
-		if w.u[i] != nil {
-			m[key] = *w.u[i]
+		if u[i] != nil {
+			m[key] = *u[i]
 		}
 	}
 	if w.bad {
@@ -776,13 +825,28 @@ func c18Engine(kv map[string]string, w *world) string {
 func main() {
 	pluginconfig.AddHooks() // once, before any case runs: the engine path decodes a whole engine.Config
 	drv.Main(&drv.Prop{ID: "C18", Gen: c18Gen, Run: c18Run, Class: c18Class, Workers: 8,
-		Rule: "every constructor shape (component|factory x config none|struct|*struct x ctor error x factory error x impl|interface product x default-config absent|fresh|nil|shared) x requested form (New, factory without/with error) x fillConf given or not, each run with a fault-free and a random fault plan and a random number k<=20 of calls (thorough: some k up to 120, plus EVERY fault plan over invocation indices 0..2 for k=2; registrations Register must refuse: one case per shape and round); per valid shape x form one run through pluginconfig.Hook/FactoryHook with the real config decoder as fillConf and one with settings the decoder refuses; per valid shape one pool of the real engine (constructor registered with core/register.Gun, engine.Config decoded with the plugin hooks, 0..6 instances, shared or per-instance rps schedule, faults at warm-up / first instance); Register driven over constructor and default-config TYPES (supported forms and their neighbours: arity, result kinds, config kinds, implements, default-config function type, plugin type, name, duplicate); non-trivial = at least one call, a refused registration, or a type case"})
+		Rule: "every constructor shape (component|factory x config none|struct|*struct x ctor error x factory error x impl|interface product x default-config absent|fresh|nil|shared) x requested form (New, factory without/with error) x fillConf given or not, each run with a fault-free and a random fault plan and a random number k<=20 of calls (thorough: some k up to 120, plus EVERY fault plan over invocation indices 0..2 for k=2; registrations Register must refuse: one case per shape and round); per valid shape x form one run through pluginconfig.Hook/FactoryHook with the real config decoder as fillConf and one with settings the decoder refuses; per valid shape one pool of the real engine (constructor registered with core/register.Gun, engine.Config decoded with the plugin hooks, 0..6 instances, shared or per-instance rps schedule, faults at warm-up / first instance); per valid shape two histories (direct and through the hooks): 2..4 creations on ONE registration, each of a random form with its own user settings and 0..4 calls, one fault plan over the running invocation indices; Register driven over constructor and default-config TYPES (supported forms and their neighbours: arity, result kinds, config kinds, implements, default-config function type, plugin type, name, duplicate); non-trivial = at least one call, a refused registration, or a type case"})
 }
 
 func c18Class(input, obs string) string {
 	kv := drv.KV(input)
 	if kv["via"] == "reg" {
 		return "reg-" + obs
+	}
+	if kv["hist"] == "1" {
+		c := "hist-" + kv["sh"][:2]
+		if kv["via"] == "hook" {
+			c = "hook" + c
+		}
+		switch {
+		case obs == "regpanic":
+			return c + "-regpanic"
+		case strings.Contains(obs, "panic."):
+			return c + "-panic"
+		case strings.Contains(obs, "err."):
+			return c + "-err"
+		}
+		return c + "-ok"
 	}
 	if kv["via"] == "engine" {
 		res := drv.KV(obs)["res"]
@@ -913,6 +977,39 @@ func c18Gen(r *rand.Rand, tier string) []string {
 										s += " bad=1"
 									}
 									out = append(out, s)
+									// histories: several creations on the one registration, each with its own settings
+									for _, via := range []string{"", "via=hook "} {
+										n := 2 + r.Intn(3)
+										var phs []string
+										total := 0
+										for i := 0; i < n; i++ {
+											pu := make([]string, 3)
+											for j := range pu {
+												pu[j] = "_"
+												if cfg != 'n' && r.Intn(2) == 0 {
+													pu[j] = val()
+												}
+											}
+											fill := r.Intn(2)
+											if via != "" {
+												fill = 1
+											}
+											pk := r.Intn(5)
+											total += pk + 1
+											phs = append(phs, fmt.Sprintf("%s:%d:%s:%d", forms[r.Intn(3)], fill, strings.Join(pu, "/"), pk))
+										}
+										hs := fmt.Sprintf("%shist=1 sh=%c%c%c%c%c%c d=%s/%s/%s ph=%s", via, fa, cfg, ce, fe, ifc, df, val(), val(), val(), strings.Join(phs, "|"))
+										if r.Intn(2) == 0 {
+											ffs := subset(r, total)
+											if via != "" {
+												ffs = ""
+											}
+											hs += fmt.Sprintf(" ff=%s cf=%s rf=%s", ffs, subset(r, total), subset(r, total))
+										} else {
+											hs += " ff= cf= rf="
+										}
+										out = append(out, hs)
+									}
 								}
 							}
 						}
